@@ -114,6 +114,46 @@ def validate(traces):
     return res, {r['tid'] for r in res.records}
 
 
+def extrap_stage(rep, tier, fb):
+    """spec/TaylorExtrap.tla: the two-stage extrapolation over successive radii removes the r^m and r^2m aliasing terms
+    exactly; every TLC case is replayed into fornberg._extrapolate (and the first stage into fornberg.richardson)."""
+    cfg = ("CONSTANTS\n  EmitOn = TRUE\n  SmallBox = %s\nINIT Init\nNEXT Next\nCHECK_DEADLOCK FALSE\nINVARIANT FirstStage\nINVARIANT SecondStage\nINVARIANT Count\nCONSTRAINT Emit\n"
+           % ('TRUE' if tier == 'quick' else 'FALSE'))
+    res = vlib.tlc('TaylorExtrap', cfg_text=cfg, timeout=3000)
+    vlib.require_ok(res)
+    n = 0
+    worst = 0.0
+    for r in res.records:
+        if not r['valid']:
+            continue
+        rs = [vlib.fl(q) for q in r['rs']]
+        bs = [vlib.fl(q) for q in r['bs']]
+        A, m = vlib.fl(r['A']), r['m']
+        try:
+            out = fb._extrapolate([np.array([b, 2 * b]) for b in bs], rs, m)         # two coefficients at once, as Taylor does
+        except Exception as ex:
+            rep.violation('extrapolate-raises', dict(case=r), '_extrapolate raised %r on bs=%s rs=%s m=%d' % (ex, bs, rs, m))
+            continue
+        n += 1
+        if len(out) != len(rs) - 2:
+            rep.violation('extrapolate-count', dict(case=r, got=len(out)), '_extrapolate: %d radii give %d values, specification %d' % (len(rs), len(out), len(rs) - 2))
+            continue
+        # conditioning: the corrections divide by 1 - (r_a/r_b)^m
+        amp = 1.0
+        for k in range(len(rs) - 1):
+            amp = max(amp, 1.0 / abs(1.0 - (rs[k] / rs[k + 1]) ** m))
+        for k in range(len(rs) - 2):
+            amp = max(amp, 1.0 / abs(1.0 - (rs[k] / rs[k + 2]) ** m))
+        mag = max(abs(b) for b in bs) + abs(A)
+        tol = 64 * EPS * mag * amp * amp
+        err = max(float(np.abs(np.asarray(o) - np.array([A, 2 * A])).max()) for o in out)
+        worst = max(worst, err / tol)
+        if not err <= tol:
+            rep.violation('extrapolate-value', dict(A=A, B=vlib.fl(r['B']), C=vlib.fl(r['C']), m=m, rs=rs, got=[np.asarray(o).tolist() for o in out]),
+                          '_extrapolate(b = A + B r^m + C r^2m, A=%g, m=%d, radii %s) = %s: the aliasing terms are not removed' % (A, m, rs, [float(np.asarray(o)[0]) for o in out]))
+    return res, n, worst
+
+
 def run(tier, rep):
     seed = vlib.seed_from_env()
     ctl_cfg = "CONSTANTS\n  MaxIters = {3, 4, 5, 8, 30}\n  NumExtraps = {0, 1, 2, 3, 5}\nSPECIFICATION Spec\nCHECK_DEADLOCK FALSE\nINVARIANT FailedIffCap\nINVARIANT ConvergedMeans\nINVARIANT EnoughCircles\nINVARIANT CirclesAfterRange\nINVARIANT DegenerateOnlyLate\nINVARIANT TypeOK\n"
@@ -127,6 +167,7 @@ def run(tier, rep):
     lem = vlib.tlc('MC_TaylorFams', cfg='MC_TaylorFams.cfg')
     vlib.require_ok(lem)
     from numdifftools import fornberg as fb
+    xres, nx, xworst = extrap_stage(rep, tier, fb)
     doc_mismatch = []
     table = lambda n: 8 if n <= 6 else 16 if n <= 12 else 32 if n <= 25 else 64 if n <= 51 else 128 if n <= 103 else 256
     for n in range(1, 193):
@@ -201,8 +242,8 @@ def run(tier, rep):
     if tier != 'quick':
         import suite_traces
         sres, sstats = suite_traces.check('taylor', rep)     # the repository's own tests, hooks on, against Trace_Taylor
-    states, trans, per = vlib.merge_tlc([ctl, live, lem, tres] + sres)
-    cov = dict(**sstats, states=states, transitions=trans, traces_validated_against_impl=len(traces), coefficient_checks=nval,
+    states, trans, per = vlib.merge_tlc([ctl, live, lem, tres, xres] + sres)
+    cov = dict(**sstats, extrapolation_cases=nx, extrapolation_worst_ratio=xworst, states=states, transitions=trans, traces_validated_against_impl=len(traces), coefficient_checks=nval,
                samples=[dict(case=owners[0], trace=traces[0])], evaluations=len(traces) + nval,
                distinct_nontrivial=len({nm for nm in owners if 'default' not in nm}),
                rule='11 function families x 6 expansion points of the unit square x (default configuration with n <= 20 + seeded (n, r, step_ratio, num_extrap)); non-trivial = non-default configuration',
